@@ -665,6 +665,9 @@ func (e *SEnv) evalCallSX(sx *SX) Val {
 			return e.fail(sx, "fresh() needs a pre-state")
 		}
 		r := e.eval(sx.Args[0])
+		if r.S == "Slice" {
+			r = Val{T: app("sl_arr", r.T), S: "Int"}
+		}
 		return Val{T: and(app("<=", e.old.nextref, r.T), app("<", r.T, e.st.nextref)), S: "Bool"}
 	case "min", "max":
 		if !argn(2) {
@@ -739,6 +742,15 @@ func (e *SEnv) evalCallSX(sx *SX) Val {
 			st.assume(fmt.Sprintf("(forall ((k Int)) (! (=> (select %s k) (exists ((j Int)) (and (<= 0 j) (< j %s) (= (select %s (at %s j)) k)))) :pattern ((select %s k))))", t, n.T, inner, off, t))
 		}
 		return Val{T: t, S: "(Array Int Bool)"}
+	case "slices":
+		// slices(s): s is a slice whose elements are slices (for ghost values, which carry no Go type)
+		if !argn(1) {
+			break
+		}
+		v := e.eval(sx.Args[0])
+		v.E = "Slice"
+		v.G = nil
+		return v
 	case "pow2m1":
 		// pow2m1(n) = 2^n - 1 (uninterpreted; the recurrence is instantiated for ground arguments)
 		if !argn(1) {
